@@ -202,12 +202,47 @@ def run_unit(name, tier='quick', seed=0):
     with open(os.path.join(WORK, name + '.lock'), 'w') as lk:
         fcntl.flock(lk, fcntl.LOCK_EX)
         try:
-            return _run_unit(name, tier, seed)
+            r = _run_unit(name, tier, seed)
+            # N11: retry once with the constants the verifier could not find, if the unit's own source files define them
+            if r.status == 'undecided':
+                extra = _missing_consts(name, r.reason)
+                if extra:
+                    r2 = _run_unit(name, tier, seed, extra)
+                    if r2.status == 'ok' or 'cannot find value' not in r2.reason:
+                        return r2
+            return r
         finally:
             fcntl.flock(lk, fcntl.LOCK_UN)
 
 
-def _run_unit(name, tier='quick', seed=0):
+def _missing_consts(name, reason):
+    """`cannot find value `NAME` in this scope` for an upper-case NAME that is a top-level const of a file the unit extracts
+    from -> the @item lines that copy it."""
+    names = sorted(set(re.findall(r'cannot find value `([A-Z][A-Z0-9_]+)` in this scope', reason or '')))
+    if not names:
+        return []
+    try:
+        tpl = open(os.path.join(VERIF, 'contracts', name, 'unit.vt'), encoding='utf-8').read()
+    except OSError:
+        return []
+    files = []
+    for m in re.finditer(r'(?m)^@(?:item|impl|fn)\s+(\S+\.rs)\s+::', tpl):
+        if m.group(1) not in files:
+            files.append(m.group(1))
+    out = []
+    for n in names:
+        for f in files:
+            try:
+                src = open(os.path.join(REPO, f), encoding='utf-8').read()
+            except OSError:
+                continue
+            if re.search(r'(?m)^\s*(?:pub(?:\([a-z]+\))?\s+)?const\s+%s\s*:' % re.escape(n), src):
+                out.append('@item %s :: const %s' % (f, n))
+                break
+    return out
+
+
+def _run_unit(name, tier='quick', seed=0, extra_items=()):
     """Generate + verify one unit.  Returns UnitResult; never raises for verification outcomes."""
     r = UnitResult()
     r.name = name
@@ -226,11 +261,12 @@ def _run_unit(name, tier='quick', seed=0):
     r.lost = []
     r.degraded = set()
     r.anchor_fp = {}
+    r.text_fp = None
     t0 = time.time()
     wd = os.path.join(WORK, name)
     os.makedirs(wd, exist_ok=True)
     try:
-        u = Unit(VERIF, REPO, name).generate()
+        u = Unit(VERIF, REPO, name, extra_items).generate()
         text, spans = u.render()
         layers = u.canary_layers()
         ctexts = [u.render(canary=L)[0] for L in layers]
@@ -263,6 +299,7 @@ def _run_unit(name, tier='quick', seed=0):
     r.lost = list(u.lost_anchors)
     r.degraded = set(u.degraded_fns)
     r.anchor_fp = {k: sorted(v) for k, v in u.anchor_fp.items() if v}
+    r.text_fp = u.fingerprints()
     r.log = u.log
     r.trusted = tb + ['N6 havoc: ' + h for h in u.havocs] + ['N7 ' + x for x in u.reduced] + list(u.trait_contracts)
     renames = sorted(set((l['before'], l['after']) for l in u.log if l['rule'] == 'N3'))
